@@ -223,6 +223,11 @@ def drive_ws(r, P):
         "input_distribution": dict(tagc),
         "proof": {k: v for k, v in r.proof.items() if k != "cone"},
     }
+    extra = getattr(r, "extra_coverage", None)
+    if extra:
+        r.coverage["evaluations"] += extra.pop("evaluations", 0)
+        r.coverage["distinct_nontrivial"] += extra.pop("distinct_nontrivial", 0)
+        r.coverage.update(extra)
     r.assumptions = list(P.ASSUMPTIONS)
     return r.finish()
 
